@@ -92,6 +92,10 @@ def gen_cases(tier, seed):
         if i % 8 == 0:
             # an on_remove callback touches the world again (vf/reentry.py)
             yield reentry.gen(random.Random(f'C02/re/{seed}/{tier}/{i}'))
+        if i % 40 == 7:
+            # an on_add disables dispatching in the middle of create_entity
+            yield reentry.gen_disable(
+                random.Random(f'C02/dis/{seed}/{tier}/{i}'))
         if i % 40 == 3:
             # a released on_add detaches a component whose own postponed
             # on_add is still queued
@@ -372,6 +376,8 @@ def run_case(case):
         return reentry.run(case)
     if case.get('scenario') == 'overtake':
         return reentry.run_overtake(case)
+    if case.get('scenario') == 'disable_in_on_add':
+        return reentry.run_disable(case)
     if case.get('scenario'):
         return run_scenario(case)
     res = Res()
